@@ -133,6 +133,28 @@ def build_generic(body):
     return mod, gen
 
 
+def run_encode_pass(bodies, accs):
+    """ONE module with all the linalg.generic ops (generic i tagged phs_acc = @accs[i]), the real `phs-encode`
+    pass run on it; returns {acc name: the phs.pe the pass left in the module}"""
+    from snaxc.dialects import phs
+    from snaxc.transforms.phs.encode import PhsEncodePass
+    from xdsl.context import Context
+    from xdsl.dialects import builtin
+    from xdsl.dialects.builtin import SymbolRefAttr
+    ops = []
+    for b, a in zip(bodies, accs):
+        mod, gen = build_generic(b)
+        for o in list(mod.body.block.ops):
+            o.detach()
+            ops.append(o)
+        if a is not None:  # an untagged generic is none of the pass's business
+            gen.attributes["phs_acc"] = SymbolRefAttr(a)
+    module = builtin.ModuleOp(ops)
+    PhsEncodePass().apply(Context(), module)
+    module.verify()
+    return {o.name_prop.data: o for o in module.body.block.ops if isinstance(o, phs.PEOp)}, module
+
+
 def real_encode(body, name="acc"):
     from snaxc.phs.encode import convert_generic_body_to_phs
     from xdsl.pattern_rewriter import PatternRewriter
@@ -710,6 +732,24 @@ def attr_clause(bodies):
     return True
 
 
+def gen_pass_case(rng, tier):
+    """a module for the phs-encode pass: the generics of one or two accelerators interleaved"""
+    hists = [gen_history(rng, tier, 8)]
+    if rng.random() < 0.6:
+        hists.append(gen_history(rng, tier, 8))
+    tagged = [(b, f"acc{i}") for i, h in enumerate(hists) for b in h]
+    # interleave, keeping the order inside each accelerator
+    order = []
+    idx = [0] * len(hists)
+    while any(idx[i] < len(h) for i, h in enumerate(hists)):
+        i = rng.choice([i for i, h in enumerate(hists) if idx[i] < len(h)])
+        order.append((hists[i][idx[i]], f"acc{i}"))
+        idx[i] += 1
+    if rng.random() < 0.3:  # an untagged generic somewhere in the module
+        order.insert(rng.randrange(len(order) + 1), (gen_body(rng, [I32, I32, I32], 2), None))
+    return {"kind": "pass", "bodies": [b for b, _ in order], "accs": [a for _, a in order]}
+
+
 def gen_attr_history(rng):
     """kernels over operations WITH attributes and other arities: arith.cmpi <pred> + arith.select (min / max /
     clamp-like), in-body arith.constant operands, unary arith.negf. Same or different attributes across the
@@ -770,11 +810,14 @@ class C20(Prop):
     def cases(self, rng, tier):
         n = 600 if tier == "quick" else 4000
         maxmux = 9 if tier == "quick" else 11
+        # the real phs-encode pass on one module with the generics of one or two accelerators interleaved
+        for i in range(30 if tier == "quick" else 300):
+            yield gen_pass_case(rng, tier)
         # operations with attributes / other arities (cmpi+select, in-body constants, unary)
         for i in range(60 if tier == "quick" else 600):
             yield gen_attr_history(rng)
         # large elements (10..14 muxes), every merged kernel re-decoded after every merge
-        for i in range(40 if tier == "quick" else 300):
+        for i in range(24 if tier == "quick" else 300):
             yield gen_large(rng)
         for i in range(n):
             if rng.random() < 0.1:
@@ -969,7 +1012,50 @@ class C20(Prop):
                 return out
         return out
 
+    def _impl_pass(self, case):
+        pes, module = run_encode_pass(case["bodies"], case["accs"])
+        return {"pes": {a: pe_json(p)[0] for a, p in sorted(pes.items())}}
+
+    def _oracle_pass(self, case):
+        """the element the pass leaves for an accelerator decodes every generic tagged with it to its function, and
+        is what merging those generics alone gives (state carried from one generic of the module to the next)"""
+        from snaxc.phs.decode import decode_abstract_graph
+        pes, module = run_encode_pass(case["bodies"], case["accs"])
+        out = []
+        for acc in sorted({a for a in case["accs"] if a is not None}):
+            if acc not in pes:
+                out.append({"what": f"phs-encode left no phs.pe @{acc} in the module", "finding": None})
+                continue
+            abst = pes[acc]
+            bodies = [b for b, a in zip(case["bodies"], case["accs"]) if a == acc]
+            sig = signature(bodies[0])
+            keep = []
+            alone = real_group_graph(bodies, list(range(len(bodies))), keep)
+            if pe_json(alone)[0] != pe_json(abst)[0]:
+                out.append({"what": f"phs.pe @{acc} after the pass differs from merging its generics alone", "finding": None})
+            for i, b in enumerate(bodies):
+                k, owner = real_encode(b)
+                keep.append(owner)
+                try:
+                    sw = [int(x) for x in decode_abstract_graph(abst, k)]
+                except Exception as e:  # noqa: BLE001
+                    out.append({"what": f"@{acc}: generic {i} is undecodable after the pass: {type(e).__name__}", "finding": None})
+                    continue
+                if len(sw) != abst.get_true_switches():
+                    out.append({"what": f"@{acc}: {len(sw)} values, get_true_switches() = {abst.get_true_switches()}",
+                                "finding": None})
+                    continue
+                try:
+                    got = eval_pe(abst, sym_inputs(len(sig)), full_switches(abst, sw), sym_sem)
+                except Invalid as e:
+                    got = f"invalid: {e}"
+                if got != eval_body(b, sym_inputs(len(sig)), sym_sem):
+                    out.append({"what": f"@{acc}: the element of the pass computes {str(got)[:120]} for generic {i}", "finding": None})
+        return out
+
     def _impl(self, case):
+        if case["kind"] == "pass":
+            return self._impl_pass(case)
         if case["kind"] == "from_ops":
             return self._impl_from_ops(case)
         if case["kind"] == "graphs":
@@ -1056,6 +1142,9 @@ class C20(Prop):
                 [name, [case["arg_tys"][s[1]] for s in srcs], rty] for name, rty, srcs in case["ops"]]}}]
         if case["kind"] == "graphs":
             return [{"fn": "c20.graphs", "args": {"graphs": case["graphs"], "plan": case["plan"]}}]
+        if case["kind"] == "pass":
+            return [{"fn": "c20.history", "args": {"merged_only": True, "bodies": [
+                b for b, a in zip(case["bodies"], case["accs"]) if a == acc]}} for acc in sorted({a for a in case["accs"] if a is not None})]
         if not all(well_typed(b) for b in case["bodies"]):
             return []
         args = {"bodies": case["bodies"]}
@@ -1066,6 +1155,14 @@ class C20(Prop):
         return [{"fn": "c20.history", "args": args}]
 
     def model(self, case, answers):
+        if case["kind"] == "pass":
+            pes = {}
+            for acc, a in zip(sorted({a for a in case["accs"] if a is not None}), answers):
+                if "ok" not in a:
+                    return {"model_error": a.get("err")}
+                last = a["ok"]["steps"][-1]
+                pes[acc] = last.get("pe", last)
+            return {"pes": pes}
         if not answers:
             return {"invalid_input": "ill-typed body"}
         a = answers[0]
@@ -1095,6 +1192,8 @@ class C20(Prop):
         """Runs the real code again (fresh objects) and evaluates the property with the PE interpreter."""
         from snaxc.phs.combine import append_to_abstract_graph
         from snaxc.phs.decode import decode_abstract_graph
+        if case["kind"] == "pass":
+            return self._oracle_pass(case)
         if case["kind"] == "from_ops":
             return self._oracle_from_ops(case)
         if case["kind"] == "graphs":
@@ -1273,6 +1372,8 @@ class C20(Prop):
         return out
 
     def nontrivial(self, case, impl_out):
+        if case["kind"] == "pass":
+            return isinstance(impl_out, dict) and len(case["bodies"]) > 1
         if case["kind"] == "from_ops":
             return isinstance(impl_out, dict) and len(impl_out.get("terms", [])) > 1
         if case["kind"] == "graphs":
@@ -1286,6 +1387,8 @@ class C20(Prop):
 
     def stats_key(self, case, impl_out):
         k = case.get("kind", "case")
+        if k == "pass":
+            return f"{k}:accs={len({a for a in case['accs'] if a})}:n={len(case['bodies'])}"
         if k == "from_ops":
             return f"{k}:raised:{impl_out['raised']}" if "raised" in impl_out else f"{k}:n={len(case['ops'])}"
         if k == "graphs":
@@ -1301,6 +1404,11 @@ class C20(Prop):
         return f"{k}:no-steps"
 
     def shrink(self, case):
+        if case["kind"] == "pass":
+            for i in range(len(case["bodies"])):
+                if len(case["bodies"]) > 1:
+                    yield dict(case, bodies=case["bodies"][:i] + case["bodies"][i + 1:], accs=case["accs"][:i] + case["accs"][i + 1:])
+            return
         if case["kind"] == "graphs":
             for i in range(1, len(case["plan"])):
                 yield dict(case, plan=case["plan"][:i] + case["plan"][i + 1:])
